@@ -101,6 +101,15 @@ Proof.
   apply list_eqb_spec in El. subst sch. vm_compute in Est. discriminate Est.
 Qed.
 
+(* every join against a canonical file base, whatever the reference *)
+Theorem join_file_any ovr b input u : FileCanon hp hd b -> usv_list input ->
+  parse_url dbg hp hpo hd ovr (Some b) input = POk u -> Known_file_drive u = false -> CanonF u.
+Proof using HOK HNE HW HRT HAb.
+  intros Cb Hu Hp Hk. destruct (nonfile_input input) eqn:En.
+  - left. exact (join_abs_Canon_g dbg hp hpo hd HRT HAb ovr b input u Hu (file_base_abs_ref b input Cb En) Hp).
+  - right. exact (join_file_base dbg hp hpo hd HRT HAb (proj1 HNE) HW ovr b input u Cb Hu En Hp Hk).
+Qed.
+
 Theorem step_file8_CanonF u o u' : FileCanon hp hd u -> file_op8 o = true -> op_args_ok o ->
   apply_op dbg hp hpo hd u o = Some u' -> nlen (ser u') <= U32_MAX_P -> CanonF u'.
 Proof using HOK HRT.
@@ -142,10 +151,7 @@ Proof using HOK HNE HW HRT HAb.
   - left. exact (join_abs_Canon_g dbg hp hpo hd HRT HAb ovr b input u Hu Ht Hp).
   - rewrite (join_file_abs_eq dbg hp hpo hd ovr b input Ht) in Hp.
     exact (parse_CanonF dbg hp hpo hd HOK HNE HW ovr input u Hu Hp Hk).
-  - pose proof (CanonF_file hp hpo hd b IH Hf) as Cb.
-    destruct (nonfile_input input) eqn:En.
-    + left. exact (join_abs_Canon_g dbg hp hpo hd HRT HAb ovr b input u Hu (file_base_abs_ref b input Cb En) Hp).
-    + right. exact (join_file_base dbg hp hpo hd HRT HAb (proj1 HNE) HW ovr b input u Cb Hu En Hp Hk).
+  - exact (join_file_any ovr b input u (CanonF_file hp hpo hd b IH Hf) Hu Hp Hk).
   - left. exact (canon_step_all dbg hp hpo hd HOK HNE u o u' (CanonF_nonfile hp hpo hd u IH Hf) Ha Hk Ho Hb).
   - exact (step_file8_CanonF u o u' (CanonF_file hp hpo hd u IH Hf) Ht Ha Ho Hb).
   - right. exact (step_file_path_File u o u' (CanonF_file hp hpo hd u IH Hf) Ht Ha Ho Hb Hk').
